@@ -30,6 +30,18 @@
 //	up:<n>:<num>:<more>                                        peer uploads one block of a POST body
 //	cancel:<id> · sleep:<ms> · tick · close · settle · end     (end: cancel every context)
 //
+// second use of a request message (an application that builds its requests by hand in a message object of its own and uses
+// that object again for its next request: AcquireMessage once, then SetupGet / SetupPost with the next token, no Reset):
+//
+//	mobs:<slot>:<toklen>:<id>:<path>:<deadline>                            as obs, the request is the message object <slot>
+//	mdo:<slot>:<toklen>:<id>:<tokid>:<path>:<con|non>:<bodylen>:<deadline>  as do
+//	mwrite:<slot>:<toklen>:<id>:<con|non>                                  as write
+//
+// (toklen 1…8: length of the token of that exchange).  A slot is used again only after the call that used it has returned.
+// Aliasing probe: when a slot is written again, every observation that was registered from it and is still live must still be
+// found under its registration-time token, report that token and not report itself cancelled; otherwise the segment carries
+// `keychanged:observations:<id>`.
+//
 // After every op the bubble runs to quiescence and one segment is emitted:
 //
 //	<tok>,<mid>,<cache>,<lock>,<bwR>,<bwS>,<obs>,<lim>/<calls>,<pings>,<writes>,<liveobs>
@@ -115,10 +127,96 @@ type world struct {
 	lastBlk  sent // last request sent that asks for a following block (Block2 num > 0)
 	nextMid  int32
 	respLen  map[string]int // peer request token -> answer length
+	// caller-owned request messages that are used more than once
+	slots    map[int]*pool.Message
+	slotBusy map[int]bool
+	slotObs  map[int][]int // observations registered from that message object
+	tokLen   map[int]int   // token length of exchange id (default 4)
+	obsReq   func(tok message.Token) (*pool.Message, bool)
+	newMID   func() int32
+	over     bool     // close / end was executed
+	probes   []string // failed aliasing probes since the last segment
 }
 
 func tokOf(id int) message.Token {
 	return message.Token{0xC1, 0x03, byte(id >> 8), byte(id)}
+}
+
+// tok: the token of exchange id - tokOf(id) unless an m-op chose another length (shorter: the last bytes; longer: padded)
+func (w *world) tok(id int) message.Token {
+	w.mu.Lock()
+	n, ok := w.tokLen[id]
+	w.mu.Unlock()
+	t := tokOf(id)
+	switch {
+	case !ok || n == 4:
+		return t
+	case n < 4 && n > 0:
+		return t[4-n:]
+	default:
+		for len(t) < n && len(t) < 8 {
+			t = append(t, byte(0xA0+len(t)))
+		}
+		return t
+	}
+}
+
+// slot returns the caller-owned message object <slot> for its next use with token tok: the application writes the new
+// request into it (no Reset).  Aliasing probe for the observations registered from this object.
+func (w *world) slot(n int, ctx context.Context) *pool.Message {
+	w.mu.Lock()
+	m := w.slots[n]
+	busy := w.slotBusy[n]
+	w.slotBusy[n] = true
+	w.mu.Unlock()
+	if busy {
+		panic("slot-busy")
+	}
+	if m == nil {
+		m = w.cc.AcquireMessage(ctx)
+		w.mu.Lock()
+		w.slots[n] = m
+		w.mu.Unlock()
+	}
+	m.SetContext(ctx)
+	return m
+}
+
+func (w *world) slotFree(n int) {
+	w.mu.Lock()
+	w.slotBusy[n] = false
+	w.mu.Unlock()
+}
+
+func (w *world) probeSlot(n int) {
+	if w.over || w.obsReq == nil {
+		return
+	}
+	w.mu.Lock()
+	ids := append([]int(nil), w.slotObs[n]...)
+	w.mu.Unlock()
+	for _, id := range ids {
+		w.mu.Lock()
+		o, live := w.obs[id], w.liveObs[id]
+		w.mu.Unlock()
+		if o == nil || !live {
+			continue
+		}
+		want := w.tok(id)
+		m, ok := w.obsReq(want)
+		bad := !ok || o.Canceled()
+		if ok {
+			if !bytes.Equal(m.Token(), want) {
+				bad = true
+			}
+			w.cc.ReleaseMessage(m)
+		}
+		if bad {
+			w.mu.Lock()
+			w.probes = append(w.probes, fmt.Sprintf("keychanged:observations:%d", id))
+			w.mu.Unlock()
+		}
+	}
 }
 
 func peerTok(n int) message.Token {
@@ -224,12 +322,17 @@ func (w *world) segment() string {
 			live++
 		}
 	}
-	return fmt.Sprintf("%d,%d,%d,%d,%d,%d,%d,%d/%d,%d,%d,%d", sz[0], sz[1], sz[2], sz[3], sz[4], sz[5], sz[6], sz[7], w.calls, w.pings, w.writes, live)
+	seg := fmt.Sprintf("%d,%d,%d,%d,%d,%d,%d,%d/%d,%d,%d,%d", sz[0], sz[1], sz[2], sz[3], sz[4], sz[5], sz[6], sz[7], w.calls, w.pings, w.writes, live)
+	if len(w.probes) > 0 {
+		seg += "!" + strings.Join(w.probes, "!")
+		w.probes = nil
+	}
+	return seg
 }
 
 // respond sends a response for exchange id relative to the last request that carried its token.
 func (w *world) respond(id int, kind string, code codes.Code, payload []byte, f func(m *pool.Message)) {
-	tok := tokOf(id)
+	tok := w.tok(id)
 	lastReq := w.last[lp.Hex(tok)]
 	typ := message.NonConfirmable
 	mid := w.nextMid
@@ -305,6 +408,99 @@ func (w *world) apply(f []string) {
 				w.liveObs[id] = !o.Canceled()
 				w.mu.Unlock()
 			}
+		}()
+	case f[0] == "mobs" && len(f) == 6:
+		sl, tl, id, path, dl := atoi(f[1]), atoi(f[2]), atoi(f[3]), f[4], atoi(f[5])
+		ctx, cancel := ctxFor(dl)
+		w.cancels[id] = cancel
+		w.mu.Lock()
+		w.calls++
+		w.tokLen[id] = tl
+		w.mu.Unlock()
+		req := w.slot(sl, ctx)
+		if err := req.SetupGet("/"+path, w.tok(id)); err != nil {
+			panic(err)
+		}
+		req.SetBody(nil)
+		req.SetObserve(0)
+		if w.udp {
+			req.SetType(message.Confirmable)
+			req.SetMessageID(w.newMID())
+		}
+		w.probeSlot(sl)
+		go func() {
+			defer func() { recover(); w.slotFree(sl); w.mu.Lock(); w.calls--; w.mu.Unlock() }()
+			o, err := w.observe(req, func(*pool.Message) {})
+			if err == nil && o != nil {
+				w.mu.Lock()
+				w.obs[id] = o
+				w.liveObs[id] = !o.Canceled()
+				w.slotObs[sl] = append(w.slotObs[sl], id)
+				w.mu.Unlock()
+			}
+		}()
+	case f[0] == "mdo" && len(f) == 9:
+		sl, tl, id, tokid, path, typ, blen, dl := atoi(f[1]), atoi(f[2]), atoi(f[3]), atoi(f[4]), f[5], f[6], atoi(f[7]), atoi(f[8])
+		ctx, cancel := ctxFor(dl)
+		w.cancels[id] = cancel
+		w.mu.Lock()
+		w.calls++
+		if _, ok := w.tokLen[tokid]; !ok {
+			w.tokLen[tokid] = tl
+		}
+		w.mu.Unlock()
+		req := w.slot(sl, ctx)
+		var err error
+		if blen > 0 {
+			err = req.SetupPost("/"+path, w.tok(tokid), message.TextPlain, bytes.NewReader(body(blen)))
+		} else {
+			err = req.SetupGet("/"+path, w.tok(tokid))
+			req.SetBody(nil)
+		}
+		if err != nil {
+			panic(err)
+		}
+		if w.udp {
+			if typ == "con" {
+				req.SetType(message.Confirmable)
+			} else {
+				req.SetType(message.NonConfirmable)
+			}
+			req.SetMessageID(w.newMID())
+		}
+		w.probeSlot(sl)
+		go func() {
+			defer func() { recover(); w.slotFree(sl); w.mu.Lock(); w.calls--; w.mu.Unlock() }()
+			resp, err := w.cc.Do(req)
+			if err == nil {
+				w.cc.ReleaseMessage(resp)
+			}
+		}()
+	case f[0] == "mwrite" && len(f) == 5:
+		sl, tl, id := atoi(f[1]), atoi(f[2]), atoi(f[3])
+		ctx, cancel := ctxFor(0)
+		w.cancels[id] = cancel
+		w.mu.Lock()
+		w.writes++
+		w.tokLen[id] = tl
+		w.mu.Unlock()
+		req := w.slot(sl, ctx)
+		if err := req.SetupPost("/w", w.tok(id), message.TextPlain, nil); err != nil {
+			panic(err)
+		}
+		req.SetBody(nil)
+		if w.udp {
+			if f[4] == "con" {
+				req.SetType(message.Confirmable)
+			} else {
+				req.SetType(message.NonConfirmable)
+			}
+			req.SetMessageID(w.newMID())
+		}
+		w.probeSlot(sl)
+		go func() {
+			defer func() { recover(); w.slotFree(sl); w.mu.Lock(); w.writes--; w.mu.Unlock() }()
+			_ = w.cc.WriteMessage(req)
 		}()
 	case f[0] == "obscancel" && len(f) == 2:
 		id := atoi(f[1])
@@ -392,7 +588,7 @@ func (w *world) apply(f []string) {
 			return
 		}
 		id := atoi(f[1])
-		lastReq, ok := w.last[lp.Hex(tokOf(id))]
+		lastReq, ok := w.last[lp.Hex(w.tok(id))]
 		if !ok {
 			lastReq = w.lastPing
 		}
@@ -529,8 +725,10 @@ func (w *world) apply(f []string) {
 	case f[0] == "tick":
 		w.cc.CheckExpirations(time.Now())
 	case f[0] == "close":
+		w.over = true
 		_ = w.cc.Close()
 	case f[0] == "end":
+		w.over = true
 		for _, c := range w.cancels {
 			c()
 		}
@@ -605,7 +803,8 @@ func (w *world) run(ops []string) string {
 
 func newWorld(udp, bw bool) *world {
 	return &world{udp: udp, bw: bw, cancels: map[int]context.CancelFunc{}, apCancel: map[int]func(){}, apDone: map[int]bool{}, obs: map[int]observation{}, liveObs: map[int]bool{},
-		last: map[string]sent{}, nextMid: 40000, respLen: map[string]int{}}
+		last: map[string]sent{}, nextMid: 40000, respLen: map[string]int{},
+		slots: map[int]*pool.Message{}, slotBusy: map[int]bool{}, slotObs: map[int][]int{}, tokLen: map[int]int{}}
 }
 
 func (w *world) answer(tok message.Token) int {
@@ -641,6 +840,8 @@ func runUDP(t *testing.T, nstart uint32, bw bool, limit, eplimit int64, ops []st
 			return [8]int{z.Token, z.Mid, z.Cache, z.Lock, z.BwRecv, z.BwSend, z.Obs, z.Limiter}
 		}
 		w.inject = func(d []byte) error { return cc.Process(nil, d) }
+		w.obsReq = cc.GetObservationRequest
+		w.newMID = cc.GetMessageID
 		w.taken = func() []sent {
 			var out []sent
 			for _, d := range s.TakeSent() {
@@ -698,6 +899,8 @@ func runTCP(t *testing.T, bw bool, limit, eplimit int64, ops []string) (out stri
 			return [8]int{z.Token, 0, 0, 0, z.BwRecv, z.BwSend, z.Obs, z.Limiter}
 		}
 		w.inject = func(d []byte) error { return peer.Write(d) }
+		w.obsReq = cc.GetObservationRequest
+		w.newMID = func() int32 { return 0 }
 		w.taken = func() []sent {
 			var out []sent
 			for _, d := range peer.TakeFrames() {
